@@ -27,7 +27,8 @@ def local_assigned(ctx, fn, pat):
     out = []
     for n in own_nodes(fn.node):
         if isinstance(n, ast.Assign) and len(n.targets) == 1 and isinstance(n.targets[0], ast.Name):
-            if match(ex.raw(n.value), pattern(pat)) is not None:
+            if match(ex.raw(n.value), pattern(pat)) is not None or \
+                    match(ex.raw_t(n.value), pattern(pat)) is not None:
                 out.append((n.targets[0].id, n))
     return out
 
@@ -188,7 +189,7 @@ def _metropolis_roles(ctx, f):
     ii = lo.target.id
     cur_defs = [n for n in ast.walk(lo) if isinstance(n, ast.Assign) and
                 isinstance(n.targets[0], ast.Name) and
-                match(ex.raw(n.value), pattern('target({}[{}, :])'.format(buf, ii))) is not None]
+                match(ex.raw_t(n.value), pattern('target({}[{}, :])'.format(buf, ii))) is not None]
     if len(cur_defs) != 1:
         return None
     cur = cur_defs[0].targets[0].id
